@@ -210,6 +210,73 @@ func checkC14(r *harness.Run) harness.Coverage {
 			}
 		}
 	})
+	// (3b) two constant tokens inside ONE expression (a shared scratch buffer in the lexer must not leak
+	// from one token into the next): every ordered pair of raw strings / literals / quoted keys
+	type constTok struct {
+		text string
+		val  interface{}
+	}
+	var consts []constTok
+	stringsOver([]string{"a", "'", "\\", "`", "\""}, 2, func(sv string) {
+		if strings.HasSuffix(sv, `\`) || strings.Contains(sv, `\'`) {
+			return
+		}
+		consts = append(consts, constTok{"'" + strings.Replace(sv, "'", `\'`, -1) + "'", sv})
+		js, _ := json.Marshal(sv)
+		consts = append(consts, constTok{"`" + strings.Replace(string(js), "`", "\\`", -1) + "`", sv})
+	})
+	consts = append(consts, constTok{"`[\"a\\`b\", 1]`", univ.J("[\"a`b\", 1]")}, constTok{"`1`", 1.0}, constTok{"''", ""}, constTok{"'it\\'s'", "it's"}, constTok{"'don\\'t'", "don't"})
+	var pairCases int64
+	harness.Parallel(len(consts), func(wk, i int) {
+		x := consts[i]
+		for _, y := range consts {
+			for _, z := range []constTok{{"`0`", 0.0}, consts[(i*7+3)%len(consts)]} {
+				expr := "[" + x.text + ", " + y.text + ", " + z.text + "]"
+				atomic.AddInt64(&pairCases, 1)
+				res, fail := search(expr, map[string]interface{}{}) // (a multi-select on null is null)
+				want := []interface{}{x.val, y.val, z.val}
+				if fail != "" || !model.DeepEqual(res, want) {
+					report("wrong-value", "constant-tokens-interfere:"+expr, expr, nil, model.Canon(want), fail+model.Show(res))
+				}
+			}
+			hexpr := "{" + escMinimal("k"+fmt.Sprint(x.val)) + ": " + x.text + ", z: " + y.text + "}"
+			res, fail := search(hexpr, map[string]interface{}{})
+			atomic.AddInt64(&pairCases, 1)
+			m, ok := res.(map[string]interface{})
+			if fail != "" || !ok || !model.DeepEqual(m["k"+fmt.Sprint(x.val)], x.val) || !model.DeepEqual(m["z"], y.val) {
+				report("wrong-value", "constant-tokens-interfere:"+hexpr, hexpr, nil, "hash of the two constants", fail+model.Show(res))
+			}
+		}
+	})
+	cases += pairCases
+	// (3c) long quoted identifiers / raw strings / literals around buffer-size boundaries
+	var lens []int
+	for l := 240; l <= 270; l++ {
+		lens = append(lens, l)
+	}
+	for _, c := range []int{510, 511, 512, 513, 1022, 1023, 1024, 1025, 4094, 4095, 4096, 4097, 65534, 65535, 65536} {
+		lens = append(lens, c)
+	}
+	harness.Parallel(len(lens), func(wk, i int) {
+		l := lens[i]
+		for _, unit := range []string{"k", "é", "\\", "\""} {
+			key := strings.Repeat(unit, (l+len(unit)-1)/len(unit))
+			for _, esc := range []string{escMinimal(key), escMixed(key)} {
+				atomic.AddInt64(&cases, 1)
+				res, fail := search(esc, map[string]interface{}{key: marker, key[:len(key)-1]: "shorter", key + "k": "longer"})
+				if fail != "" || res != marker {
+					report("wrong-value", fmt.Sprintf("long-quoted-identifier:%d:%q", l, unit), shorten(esc, 60), nil, fmt.Sprintf("selects the %d-byte key", len(key)), fail+shorten(model.Show(res), 80))
+				}
+			}
+			if unit != "\\" {
+				rawText := "'" + strings.Replace(key, "'", `\'`, -1) + "'"
+				atomic.AddInt64(&cases, 1)
+				if res, fail := search(rawText, nil); fail != "" || res != key {
+					report("wrong-value", fmt.Sprintf("long-raw-string:%d:%q", l, unit), shorten(rawText, 60), nil, fmt.Sprintf("the %d-byte string", len(key)), fail+shorten(model.Show(res), 80))
+				}
+			}
+		}
+	})
 	// (4) unquoted identifiers
 	// incl. runes >= U+0100 whose low byte is an ASCII letter, digit or underscore (あ 0x42, Ł 0x41, š 0x61, 丰 0x30, ş 0x5F)
 	classAlpha := []string{"a", "Z", "_", "0", "9", "-", ".", "\u0080", "é", " ", "z", "A", "@", "`", "{", "\u3042", "\u0141", "\u0161", "\u4e30", "\u015f", "\U00010041"}
